@@ -21,6 +21,7 @@ type TierCfg struct {
 	StepBudget     int            `json:"step_budget"`
 	ConcretizeCap  int            `json:"concretize_cap"`
 	QueryTimeoutMs int            `json:"query_timeout_ms"`
+	IncTimeoutMs   int            `json:"inc_timeout_ms"`
 	Skip           bool           `json:"skip"`
 }
 
@@ -157,7 +158,7 @@ func cmdCheck(args []string) int {
 			name += "/" + h.Label
 		}
 		hr := &HarnessRun{Name: name, Pkg: pkgPath(h.Pkg), Func: h.Func, Params: tc.Params, Arith: h.Arith, ConcretizeCap: tc.ConcretizeCap,
-			StepBudget: tc.StepBudget, MaxPaths: tc.MaxPaths, TimeoutS: tc.TimeoutS, Solver: h.Solver, Portfolio: h.Portfolio,
+			StepBudget: tc.StepBudget, MaxPaths: tc.MaxPaths, TimeoutS: tc.TimeoutS, Solver: h.Solver, Portfolio: h.Portfolio, IncTimeoutMs: tc.IncTimeoutMs,
 			QueryTimeoutMs: tc.QueryTimeoutMs, Workers: *workers, Reach: h.Reach}
 		if hr.Params == nil {
 			hr.Params = map[string]int{}
@@ -554,7 +555,7 @@ func writeEvidence(prop, tier string, seed int, pc *PropCfg, eng *Engine, result
 			"deciding_unsat": r.Stats.DecideUnsat, "deciding_sat": r.Stats.DecideSat, "deciding_unknown": r.Stats.DecideUnknown,
 			"assertions_folded_true_by_construction": r.Stats.AssertConst, "assertion_sites": r.Stats.Asserts,
 			"reach": r.Stats.Reached, "choices": r.Stats.Choices, "steps": r.Stats.Steps, "max_decision_depth": r.Stats.MaxDepth,
-			"solver": r.Run.Solver, "portfolio": r.Run.Portfolio, "solver_time_s": r.Stats.SolverTime.Seconds(), "solver_queries": r.Stats.SolverQueries,
+			"solver": r.Run.Solver, "portfolio": r.Run.Portfolio, "solver_time_s": r.Stats.SolverTime.Seconds(), "solver_queries": r.Stats.SolverQueries, "one_shot_queries": r.Stats.FreshQueries,
 			"wall_s": r.Wall.Seconds(), "not_established": hne, "violation_counts": r.VioCount, "stopped": r.Stopped,
 			"known_region_paths": r.Stats.KnownHits, "functions_encoded": len(r.Funcs),
 		})
